@@ -124,6 +124,11 @@ def build_traces(wd, path, tier, seed):
             x[rng.integers(n)] = 0.0
         if tid % 7 == 0:
             x = np.round(x, 6) + rng.choice([0.5e-6, -0.5e-6, 0.0], size=n)       # close to rounding boundaries
+        if rng.integers(5) == 0:
+            # whole numbers (digitiser counts, round amplitudes): multiples of 10, 100, 1000 among them, zeros, signs
+            x = (rng.integers(-300, 301, size=n) * 10.0 ** rng.integers(0, 4, size=n)).astype(float)
+            if rng.integers(2):
+                x[rng.integers(n)] = float(rng.choice([10.0, -20.0, 1000.0, 100.0, -10.0, 0.0]))
         dt = float([10.0 ** rng.uniform(-4, 2), 1.0, 1.5, 10.0, 100.0, 0.01, 0.9999, 0.0001, 2.0][tid % 9])
         dt = min(max(dt, 1e-4), 100.0)
         label = ["m1", "rec 7 east", "a b  c", "  padded column name", "station 12 EW   ", "x", "D\u00fczce 1999 NS", "\u795e\u6238 EW", "", " ", "   ", "\t"][int(rng.integers(12))]      # incl. no label at all / blanks only
@@ -133,6 +138,18 @@ def build_traces(wd, path, tier, seed):
         else:
             loader.save_signal(ffp, cls(x, dt, label=label))
         k = int(rng.integers(len(LOADERS)))
+        if rng.integers(3) == 0:
+            # history: the file was already loaded (through some entry point) and the caller changed what it was handed
+            # -- the file itself is untouched, the next load returns its content again
+            try:
+                with warnings.catch_warnings():
+                    warnings.simplefilter("ignore")
+                    v0 = load(int(rng.integers(len(LOADERS))), ffp)[0]
+                    if isinstance(v0, np.ndarray) and v0.ndim == 1 and v0.flags.writeable:
+                        v0 *= 9.81
+                        v0 += 1.0
+            except Exception:
+                pass
         raised, n2, dt2, y, lab_ok, cls_ok, m = False, 0, 0.0, [], False, False, 1.0
         try:
             with warnings.catch_warnings():
